@@ -7,6 +7,7 @@ Independent of the Lean model: only observations of the implementation are used.
     case = {"pcode": str, "ticks": int, "sched": {tick: [op, ...]}}
     op = ["inject", pcode] | ["user", name] | ["cancel", sel] | ["force", sel] | ["sim"?]
     sel = ["item", k]  -> k-th item of the current run log (mod size)   | ["id", "nope"]
+        | ["name", prefix, k] -> k-th item whose name starts with prefix | ["threshold", k] -> k-th waiting threshold
 """
 from __future__ import annotations
 
@@ -56,6 +57,7 @@ class Run:
         self._cmds: list[Any] = []
         self.stops: list[dict] = []       # what on_stop listeners could see
         self.starts: list[str] = []
+        self.start_ticks: list[int] = []
         self.user_reqs: dict[str, dict] = {}   # instance id of a user-sourced UOD request -> engine flags then
 
         def serial(cmd) -> int:
@@ -107,6 +109,7 @@ class Run:
         class L(EventListener):
             def on_start(self_inner, run_id: str):
                 run.starts.append(run_id)
+                run.start_ticks.append(run.tick_no)
 
             def on_stop(self_inner):
                 e = run.engine
@@ -261,6 +264,19 @@ def gen_method(rng: random.Random, max_lines: int = 9, failing: bool = False, en
     return "\n".join(lines)
 
 
+def gen_pause_hold(rng: random.Random) -> str:
+    """A timed Hold and a timed Pause started from two Watch bodies, aligned by 0-2 Marks so that they begin in the
+    same tick or a tick or two apart: the engine is paused and on hold together for a while."""
+    def body(cmd: str, tag: str) -> list[str]:
+        pad = [f"    Mark: {tag}{i}" for i in range(rng.randrange(0, 3))]
+        return ["Watch: T0 = 0"] + pad + [f"    {cmd}: {rng.choice(['0.5', '1', '2', '4'])}s", f"    Mark: {tag}"]
+    a, b = body("Hold", "h"), body("Pause", "p")
+    lines = (a + b) if rng.random() < 0.5 else (b + a)
+    if rng.random() < 0.5:
+        lines.append(rng.choice(["CmdB", "CmdC", "Wait: 0.5s"]))
+    return "\n".join(lines)
+
+
 def gen_snippet(rng: random.Random, failing: bool = False, bad_args: bool = False) -> str:
     cmds = ["CmdA", "CmdB", "CmdC", "CmdD"] + (["CmdF"] if failing else []) + \
         (["CmdN: 3", "CmdN: lots"] if bad_args else [])
@@ -283,6 +299,12 @@ def execute(case: dict[str, Any]) -> dict[str, Any]:
                 if op[0] in ("cancel", "force"):
                     rl = run.runlog()
                     sel = op[1]
+                    if sel[0] == "name":
+                        # the k-th run-log item whose name starts with the prefix (e.g. the timed Hold / Pause)
+                        named = [x for x in rl if x[1].startswith(sel[1])] if isinstance(rl, list) else []
+                        sel = ["item", rl.index(named[sel[2] % len(named)])] if named else ["item", -1]
+                        if not named:
+                            rl = None
                     if sel[0] == "item" and isinstance(rl, list) and rl:
                         item = rl[sel[1] % len(rl)]
                         op[1] = item[0]
@@ -337,6 +359,7 @@ def execute(case: dict[str, Any]) -> dict[str, Any]:
             out["ticks"].append(snap)
         out["log"] = list(run.log)
         out["user_reqs"] = dict(run.user_reqs)
+        out["start_ticks"] = list(run.start_ticks)
         out["final_instances"] = sorted(run.uod.command_instances)
         return out
     finally:
@@ -396,7 +419,11 @@ def oracle_c11(res: dict[str, Any]) -> list[tuple[str, str]]:
                     oname = next(e[2] for e in log if e[3] == other)
                     if conflicts(name, oname):
                         live_conflict_reported = True
-                        out.append(("new-instance-starts-before-older-one-is-finalized",
+                        # (the older one started in the last tick of a run, while Stop / Restart waited for its
+                        #  second phase, and was forgotten with the run's command manager: own signature)
+                        o_init = next(e[0] for e in log if e[3] == other and e[1] == "init")
+                        late = ":older-one-started-while-stopping" if any(st["tick"] == o_init for st in res["stops"]) else ""
+                        out.append(("new-instance-starts-before-older-one-is-finalized" + late,
                                     f"tick {t}: {name} #{ser} initialized while {oname} #{other} is not finalized"))
         elif kind == "exec":
             if st == "new":
@@ -463,9 +490,17 @@ def oracle_c10(case: dict[str, Any], res: dict[str, Any]) -> list[tuple[str, str
                                 f"tick {t}: {ln['name']} was executed but the reported run log line has no end"))
         for ev in log:
             if ev[0] > t and ev[1] == "exec" and first_seen[ev[3]] <= t:
-                out.append(("command-executes-after-stop", f"tick {ev[0]}: {ev[2]} #{ev[3]} executes after the run "
-                                                           f"ended at tick {t}"))
+                # (an instance that started in the run's last tick, while Stop waited: see instance-survives-stop)
+                late = ":started-while-stopping" if first_seen[ev[3]] == t else ""
+                out.append(("command-executes-after-stop" + late,
+                            f"tick {ev[0]}: {ev[2]} #{ev[3]} executes after the run ended at tick {t}"))
                 break
+    # Restart: the new run is not paused or on hold (nothing of the old run's Pause / Hold / error pause is left)
+    for ts in res.get("start_ticks", [])[1:]:
+        snap = res["ticks"][ts - 1] if 0 < ts <= len(res["ticks"]) else None
+        if snap is not None and snap["raised"] is None and (snap["paused"] or snap["holding"]):
+            out.append(("restarted-run-begins-paused",
+                        f"tick {ts}: the run begun by Restart is {'paused' if snap['paused'] else 'on hold'}"))
     # Restart: new run id, method from its first line
     if len(res["starts"]) >= 2 and res["stops"]:
         if len(set(res["starts"])) != len(res["starts"]):
@@ -473,11 +508,21 @@ def oracle_c10(case: dict[str, Any], res: dict[str, Any]) -> list[tuple[str, str
         t_stop = res["stops"][0]["tick"]
         after = [ev[2] for ev in log if ev[1] == "init" and ev[0] > t_stop]
         ref = case.get("_reference")
-        late_inject = any(op[0] == "inject" and int(k) >= t_stop - 2
+        late_inject = any((op[0] == "inject" or (op[0] == "user" and op[1] in COMMANDS)) and int(k) >= t_stop - 2
                           for k, ops in case.get("sched", {}).items() for op in ops)
         if ref is not None and not late_inject and len(after) >= 2 and len(ref) >= 2 and after[:2] != ref[:2]:
             out.append(("restart-does-not-rerun-from-first-line",
                         f"commands after restart {after[:4]} vs fresh run {ref[:4]}"))
+        # ... and it does run: the first command of a fresh run starts as many ticks after the run began (+2)
+        ref_delay = case.get("_reference_delay")
+        st = res.get("start_ticks", [])
+        if ref_delay is not None and len(st) >= 2 and not late_inject and not after and \
+                st[1] + ref_delay + 2 <= len(res["ticks"]) and \
+                not any(res["ticks"][k]["raised"] for k in range(st[1] - 1, len(res["ticks"]))) and \
+                not any(q["op"][0] == "user" and q["tick"] >= st[1] - 1 for q in res["requests"]):
+            out.append(("restart-does-not-rerun-from-first-line",
+                        f"no command started within {ref_delay + 2} ticks after the run began at tick {st[1]}; a "
+                        f"fresh run starts {ref[:1]} {ref_delay} ticks after its start"))
     return out
 
 
@@ -485,6 +530,13 @@ def reference_inits(case: dict[str, Any]) -> list[str]:
     """Command instances a fresh run of the method creates, in order (for the Restart clause)."""
     res = execute({"pcode": case["pcode"], "ticks": min(case["ticks"], 30), "sched": {}, "failing": case.get("failing", True)})
     return [ev[2] for ev in res["log"] if ev[1] == "init"]
+
+
+def reference_delay(case: dict[str, Any]) -> int | None:
+    """Ticks between the begin of a fresh run and the first command it starts (None: it starts none in 30 ticks)."""
+    res = execute({"pcode": case["pcode"], "ticks": min(case["ticks"], 30), "sched": {}, "failing": case.get("failing", True)})
+    inits = [ev[0] for ev in res["log"] if ev[1] == "init"]
+    return inits[0] - res["start_ticks"][0] if inits and res["start_ticks"] else None
 
 
 def oracle_c12(case: dict[str, Any], res: dict[str, Any]) -> list[tuple[str, str]]:
@@ -571,9 +623,29 @@ def oracle_c12(case: dict[str, Any], res: dict[str, Any]) -> list[tuple[str, str
                           x[2] not in ("completed", "cancelled", "failed")] if isinstance(rl, list) else [1]
                 if others:
                     continue
+                quiet_next = t < n_ticks and res["ticks"][t]["raised"] is None and \
+                    not any(q["op"] == ["user", kind] and q["tick"] in (t, t + 1) for q in res["requests"])
+                if not r.get("has_cmd"):
+                    # the item was cancelled before the command manager started the command (the tick after the
+                    # node was visited): the Pause / Hold must not take effect at all
+                    if quiet_next and not (r["before"]["flags"][1] if kind == "Pause" else r["before"]["flags"][2]):
+                        snap = res["ticks"][t]
+                        if (kind == "Pause" and snap["paused"]) or (kind == "Hold" and snap["holding"]):
+                            out.append(("cancelled-unstarted-engine-command-executes",
+                                        what + f": {kind.lower()} in effect at the end of tick {t + 1}"))
+                    continue
+                # "ends at once": the flag is down when the request returns (whatever else holds the method: a cancelled
+                # Hold ends also while the engine is paused, and the other way round) ...
                 paused, holding = r["paused_after"]
-                if (item[1].startswith("Pause") and paused) or (item[1].startswith("Hold") and holding):
-                    out.append(("cancelled-timed-pause-does-not-end", what))
+                if (kind == "Pause" and paused) or (kind == "Hold" and holding):
+                    out.append(("cancelled-timed-pause-does-not-end", what + f": still {'paused' if kind == 'Pause' else 'on hold'} after the request"))
+                # ... and still at the end of the next tick, unless the user asks for a new one just then or the tick
+                # fails (error pause)
+                elif quiet_next:
+                    snap = res["ticks"][t]
+                    if (kind == "Pause" and snap["paused"]) or (kind == "Hold" and snap["holding"]):
+                        out.append(("cancelled-timed-pause-does-not-end", what + f": {kind.lower()} in effect again "
+                                                                                 f"at the end of tick {t + 1}"))
         else:
             nid = r.get("node_id")
             # "proceeds without waiting": within the next three ticks in which the interpreter runs at all
